@@ -144,6 +144,9 @@ Lemma bind_ret {A B} (a : A) (f : A -> M B) : bind (Ret a) f = f a.
 Proof. reflexivity. Qed.
 
 (* ---------------------------------------------------------------- tactics *)
+(* helper functions that appear in the generated model but not in its committed snapshot are registered here by the
+   translator (Hint Unfold … : gen_new); the step tactics call [autounfold with gen_new] to see through them *)
+Create HintDb gen_new.
 Ltac range := unfold in_i32, in_u32, in_i64, i32_min, i32_max, u32_max, i64_min, i64_max in *; lia.
 
 (* one step of symbolic execution of translated code; side conditions by [range] *)
@@ -156,5 +159,6 @@ Ltac mstep1 :=
   | rewrite i64_div_euclid_pos by range | rewrite i64_rem_euclid_pos by range
   | rewrite i32_rem_pos by range | rewrite i32_div_pos by range
   | rewrite to_u32_id by range | rewrite to_i32_id by range | rewrite to_i64_id by range
-  | progress cbn [bind] ].
+  | progress cbn [bind]
+  | progress autounfold with gen_new ].
 Ltac msteps := repeat mstep1.
